@@ -157,6 +157,18 @@ def main():
             for b in rr["result"]["bad"]:
                 ck.violation("random-choice", dict(b, mode=mode), key={"site": "random_choice"})
 
+    # ---- (c3) the chain starts and stays inside the genotype space (uncovered SNVs, differing allele counts) ----
+    for mode in ("py", "jit"):
+        rr = pool.map_tasks("impl.c01", [{"op": "init_state", "seed": ck.seed + 11 + i, "n": (8 if mode == "py" else 40) * (1 if quick else 5),
+                                          "steps": 10 if mode == "py" else 40} for i in range(4)], mode=mode)
+        for r1 in rr:
+            if not r1["ok"]:
+                ck.violation("init-state-error", {"mode": mode, "error": r1["error"], "tb": r1.get("tb", "")[-400:]}, key={"site": "DenovoMCMC._mcmc", "mode": mode})
+                continue
+            ck.evaluations += r1["result"]["n"]
+            for b in r1["result"]["bad"]:
+                ck.violation("genotype-out-of-range", dict(b, mode=mode), key={"site": "DenovoMCMC._mcmc", "clause": b["what"]})
+
     # ---- (d) recorded fits ---------------------------------------------------------------------------
     ft = []
     k = 0
